@@ -54,6 +54,10 @@ def configs(tier):
         for size, nak, closure in itertools.product(sizes, ("imm", "def"), (False, True)):
             out.append(dict(mode="ack", K=K, size=size, seg=L, nak=nak, closure=closure, ack_limit=K + 1, nak_limit=K + 1,
                             check_limit=K + 1, link="k"))
+    # destination file already exists (longer) / destination given as a directory holding such a file
+    for K, shape, nak in itertools.product((1, 2) if tier == "thorough" else (1,), ("existing", "dir_existing"), ("imm", "def")):
+        out.append(dict(mode="ack", K=K, size=L + 1, seg=L, nak=nak, closure=False, shape=shape, ack_limit=K + 1, nak_limit=K + 1,
+                        check_limit=K + 1, link="k"))
     return out
 
 
